@@ -181,6 +181,108 @@ pub fn handler_script(name: &str, s: &HScript, other_ctx: &str, after_id: Option
     out
 }
 
+pub fn gen_expr(g: &GScript) -> Option<String> {
+    match g {
+        GScript::Single(s) => Some(format!("\"{}\"", s)),
+        GScript::ListValue(k) => Some(format!("[{}]", (0..*k).map(|i| format!("\"v{}\"", i)).collect::<Vec<_>>().join(" "))),
+        GScript::Stream(k) => Some(format!("[{}] | each {{|x| $x}}", (0..*k).map(|i| format!("\"s{}\"", i)).collect::<Vec<_>>().join(" "))),
+        GScript::Empty => Some("[] | each {|x| $x}".to_string()),
+        GScript::Echo => Some("each {|x| $\"hi: ($x)\"}".to_string()),
+        GScript::MissingHash => None,
+    }
+}
+
+pub fn gen_outputs(g: &GScript) -> Vec<String> {
+    match g {
+        GScript::Single(s) => vec![s.clone()],
+        GScript::ListValue(k) => (0..*k).map(|i| format!("v{}", i)).collect(),
+        GScript::Stream(k) => (0..*k).map(|i| format!("s{}", i)).collect(),
+        _ => vec![],
+    }
+}
+
+fn ret_literal(r: &Ret, i: usize) -> (String, serde_json::Value) {
+    match r {
+        Ret::Str => (format!("\"o{}\"", i), serde_json::json!(format!("o{}", i))),
+        Ret::Int => (format!("{}", 100 + i), serde_json::json!(100 + i)),
+        Ret::Float => ("2.5".to_string(), serde_json::json!(2.5)),
+        Ret::Bool => ("false".to_string(), serde_json::json!(false)),
+        Ret::List => (format!("[{} \"z\"]", i), serde_json::json!([i, "z"])),
+        Ret::Record => (format!("{{k: {}, leak: $leak}}", i), serde_json::json!({"k": i, "leak": 1})),
+        Ret::Binary => ("0x[aa]".to_string(), serde_json::Value::Null),
+        Ret::Nothing => ("null".to_string(), serde_json::Value::Null),
+    }
+}
+
+pub fn cmd_script(name: &str, c: &CScript) -> String {
+    if c.invalid {
+        return "{ run: {|frame| let x = } }".to_string();
+    }
+    let mut out = String::from("{\n");
+    if c.suffix.is_some() || c.ttl.is_some() {
+        out.push_str("  return_options: {");
+        if let Some(x) = &c.suffix {
+            out.push_str(&format!(" suffix: \"{}\"", x));
+        }
+        if let Some(t) = &c.ttl {
+            out.push_str(&format!(" ttl: \"{}\"", t));
+        }
+        out.push_str(" }\n");
+    }
+    out.push_str("  run: {|frame|\n");
+    out.push_str("    let leak = (($env.leak? | default 0) + 1)\n");
+    out.push_str("    $env.leak = $leak\n");
+    if c.explicit_append {
+        out.push_str(&format!("    \"side\" | .append {}.side --meta {{note: \"x\"}}\n", name));
+    }
+    let items: Vec<String> = c.outputs.iter().enumerate().map(|(i, r)| ret_literal(r, i).0).collect();
+    match c.fail_at {
+        Some(p) => {
+            out.push_str(&format!("    let items = [{}]\n", items.join(" ")));
+            out.push_str(&format!("    $items | enumerate | each {{|it| if $it.index == {} {{ error make {{msg: \"cmdboom\"}} }}; $it.item }}\n", p));
+        }
+        None => {
+            if items.len() == 1 {
+                out.push_str(&format!("    {}\n", items[0]));
+            } else {
+                out.push_str(&format!("    [{}]\n", items.join(" ")));
+            }
+        }
+    }
+    out.push_str("  }\n}\n");
+    out
+}
+
+#[derive(Clone, Debug)]
+struct GenRec {
+    id: Scru128Id,
+    name: String,
+    ctx: Scru128Id,
+    gen: GScript,
+    duplex: bool,
+    /// Some(true) must be accepted, Some(false) must be refused, None: either
+    expect_accept: Option<bool>,
+}
+
+#[derive(Clone, Debug)]
+struct DefRec {
+    id: Scru128Id,
+    name: String,
+    ctx: Scru128Id,
+    cmd: CScript,
+}
+
+#[derive(Clone, Debug)]
+struct CallRec {
+    id: Scru128Id,
+    name: String,
+    ctx: Scru128Id,
+    /// definition that must answer (same context), None = no definition in this context
+    def: Option<Scru128Id>,
+    /// a definition of that name exists in another context only
+    foreign_def: bool,
+}
+
 #[derive(Clone, Debug)]
 struct Instance {
     id: Scru128Id,
@@ -206,6 +308,11 @@ struct Run {
     /// frames the operator appended (ids), with what it meant
     triggers: Vec<(Scru128Id, Scru128Id, bool)>,
     instances: Vec<Instance>,
+    gens: Vec<GenRec>,
+    sends: Vec<(Scru128Id, String, Scru128Id, String)>,
+    defs: Vec<DefRec>,
+    calls: Vec<CallRec>,
+    ticks_1s: Vec<usize>,
     /// model: active handler per (ctx, name)
     active: HashMap<(Scru128Id, String), Scru128Id>,
     cas_watch_fail: std::sync::Arc<std::sync::Mutex<Vec<String>>>,
@@ -268,6 +375,11 @@ impl Run {
             follower: None,
             triggers: Vec::new(),
             instances: Vec::new(),
+            gens: Vec::new(),
+            sends: Vec::new(),
+            defs: Vec::new(),
+            calls: Vec::new(),
+            ticks_1s: Vec::new(),
             active: HashMap::new(),
             cas_watch_fail,
             restarts: 0,
@@ -359,7 +471,12 @@ impl Run {
             let extra: Vec<String> = if pending_ops.is_empty() { vec![] } else { vec!["operator-append".to_string()] };
             let picked = self.w.decide(chooser, &extra, &|e| e.actor_kind != "gc")?;
             match picked {
-                Picked::Nothing => break,
+                Picked::Nothing => {
+                    if std::env::var("XS_SIM_DEBUG").is_ok() {
+                        eprintln!("quiesce end: actors [{}] runnable={} log={}", self.w.ctrl.describe_actors(), self.w.tokio_runnable(), self.log.len());
+                    }
+                    break;
+                }
                 Picked::Extra(_) => {
                     let f = pending_ops.remove(0);
                     let ctx = f.context_id;
@@ -470,12 +587,87 @@ impl Run {
                 self.quiesce(chooser, vec![])?;
             }
             SOp::Tick { ms } => {
+                self.drain_log();
+                if *ms >= 1000 {
+                    self.ticks_1s.push(self.log.len());
+                }
                 self.w.tick(*ms)?;
+                self.quiesce(chooser, vec![])?;
+            }
+            SOp::SpawnGen { name, ctx, gen, duplex } => {
+                let c = self.ctx(*ctx);
+                let n = GNAMES[name % GNAMES.len()];
+                let hash = match gen_expr(gen) {
+                    Some(e) => Some(self.cas(&e)?),
+                    None => None,
+                };
+                let f = self.op_append(Frame::builder(format!("{}.spawn", n), c).maybe_hash(hash).meta(serde_json::json!({"duplex": duplex})).build())?;
+                let same_running = self.gens.iter().any(|g| g.name == n && g.ctx == c && g.expect_accept != Some(false));
+                let other_ctx_running = self.gens.iter().any(|g| g.name == n && g.ctx != c && g.expect_accept != Some(false));
+                let expect_accept = if *gen == GScript::MissingHash || same_running {
+                    Some(false)
+                } else if other_ctx_running {
+                    None
+                } else {
+                    Some(true)
+                };
+                self.gens.push(GenRec { id: f.id, name: n.to_string(), ctx: c, gen: gen.clone(), duplex: *duplex, expect_accept });
+                self.w.probe(match expect_accept {
+                    Some(true) => "gen:spawned",
+                    Some(false) => "gen:refused",
+                    None => "gen:same-name-other-context",
+                });
+                self.quiesce(chooser, vec![])?;
+            }
+            SOp::Send { name, ctx, content } => {
+                let c = self.ctx(*ctx);
+                let n = GNAMES[name % GNAMES.len()];
+                // at least 4 bytes: nushell's byte-stream chunker holds back chunks shorter than that
+                // until the next chunk arrives (it may be an incomplete UTF-8 sequence)
+                let text = format!("input-{}-{}", content, i);
+                let hash = self.cas(&text)?;
+                let f = self.op_append(Frame::builder(format!("{}.send", n), c).hash(hash).build())?;
+                self.sends.push((f.id, n.to_string(), c, text));
+                self.w.probe("gen:send");
+                self.quiesce(chooser, vec![])?;
+            }
+            SOp::Define { name, ctx, cmd } => {
+                let c = self.ctx(*ctx);
+                let n = CNAMES[name % CNAMES.len()];
+                let text = cmd_script(n, cmd);
+                let hash = self.cas(&text)?;
+                let f = self.op_append(Frame::builder(format!("{}.define", n), c).hash(hash).build())?;
+                self.defs.push(DefRec { id: f.id, name: n.to_string(), ctx: c, cmd: cmd.clone() });
+                self.w.probe(if cmd.invalid { "cmd:invalid-define" } else { "cmd:defined" });
+                self.quiesce(chooser, vec![])?;
+            }
+            SOp::Call { name, ctx, arg } => {
+                let c = self.ctx(*ctx);
+                let n = CNAMES[name % CNAMES.len()];
+                self.do_call(n, c, *arg)?;
+                self.quiesce(chooser, vec![])?;
+            }
+            SOp::CallBurst { name, ctx, n: count } => {
+                let c = self.ctx(*ctx);
+                let n = CNAMES[name % CNAMES.len()];
+                for k in 0..*count {
+                    self.do_call(n, c, k)?;
+                }
+                self.w.probe("cmd:overlapping-calls");
                 self.quiesce(chooser, vec![])?;
             }
             SOp::Quiesce => self.quiesce(chooser, vec![])?,
             _ => {}
         }
+        Ok(())
+    }
+
+    fn do_call(&mut self, n: &str, c: Scru128Id, arg: usize) -> R<()> {
+        let f = self.op_append(Frame::builder(format!("{}.call", n), c).meta(serde_json::json!({"arg": arg})).build())?;
+        let def = self.defs.iter().rev().find(|d| d.name == n && d.ctx == c && !d.cmd.invalid).map(|d| d.id);
+        let foreign_def = def.is_none() && self.defs.iter().any(|d| d.name == n && d.ctx != c && !d.cmd.invalid);
+        self.calls.push(CallRec { id: f.id, name: n.to_string(), ctx: c, def, foreign_def });
+        self.w.probe(if def.is_some() { "cmd:call" } else { "cmd:call-undefined" });
         Ok(())
     }
 
@@ -825,6 +1017,243 @@ impl Run {
         None
     }
 
+    fn check_generators(&mut self) -> R<()> {
+        let log = self.log.clone();
+        for g in self.gens.clone() {
+            let sid = g.id.to_string();
+            let desc = format!("generator {} (spawn {}, context {}, expression {:?}, duplex {})", g.name, g.id, short_ctx(&g.ctx), g.gen, g.duplex);
+            let mine: Vec<&Frame> = log.iter().filter(|f| Self::meta_str(f, "source_id").as_deref() == Some(&sid)).collect();
+            let errors: Vec<&&Frame> = mine.iter().filter(|f| f.topic == format!("{}.spawn.error", g.name)).collect();
+            let life: Vec<&&Frame> = mine.iter().filter(|f| f.topic != format!("{}.spawn.error", g.name)).collect();
+            for f in &mine {
+                if f.context_id != g.ctx {
+                    return violation("gen/context", format!("{} produced {} outside the spawn's context", desc, fmt_frame(f)));
+                }
+            }
+            let accepted = !life.is_empty();
+            match g.expect_accept {
+                Some(false) => {
+                    if accepted {
+                        return violation("gen/refused-but-started", format!("{} cannot be honoured but produced {}", desc, fmt_frame(life[0])));
+                    }
+                    if errors.len() != 1 {
+                        return violation("gen/spawn-error-count", format!("{} cannot be honoured: expected exactly one {}.spawn.error naming it, found {}", desc, g.name, errors.len()));
+                    }
+                    self.w.probe("gen:refusal-checked");
+                    continue;
+                }
+                Some(true) => {
+                    if !errors.is_empty() {
+                        return violation("gen/valid-spawn-refused", format!("{} was refused: {}", desc, fmt_frame(errors[0])));
+                    }
+                    if !accepted {
+                        return violation("gen/never-started", format!("{} never produced {}.start", desc, g.name));
+                    }
+                }
+                None => {
+                    if accepted && !errors.is_empty() {
+                        return violation("gen/spawn-error-count", format!("{} both started and was refused", desc));
+                    }
+                    if !accepted {
+                        if errors.len() != 1 {
+                            return violation("gen/spawn-error-count", format!("{} neither started nor was refused exactly once ({} errors)", desc, errors.len()));
+                        }
+                        continue;
+                    }
+                }
+            }
+            // (start recv* stop)+ with the produced strings in order
+            let want = gen_outputs(&g.gen);
+            let mut i = 0;
+            let mut lifecycles = 0;
+            let mut echoed: Vec<String> = Vec::new();
+            while i < life.len() {
+                if life[i].topic != format!("{}.start", g.name) {
+                    return violation("gen/sequence", format!("{}: expected {}.start at this point of its frames but found {}", desc, g.name, fmt_frame(life[i])));
+                }
+                i += 1;
+                let mut got: Vec<String> = Vec::new();
+                while i < life.len() && life[i].topic == format!("{}.recv", g.name) {
+                    let c = self.content(life[i]).map(|b| String::from_utf8_lossy(&b).to_string());
+                    match c {
+                        Some(t) => got.push(t),
+                        None => return violation("gen/content-missing", format!("{}: {} has no readable content", desc, fmt_frame(life[i]))),
+                    }
+                    i += 1;
+                }
+                let stopped = i < life.len() && life[i].topic == format!("{}.stop", g.name);
+                if stopped {
+                    i += 1;
+                }
+                if g.gen == GScript::Echo {
+                    echoed.extend(got.clone());
+                    if stopped {
+                        return violation("gen/sequence", format!("{}: a duplex generator stopped although its input never ended", desc));
+                    }
+                } else {
+                    if !stopped {
+                        return violation(
+                            "gen/no-stop",
+                            format!("{}: a lifecycle produced [{}] and then neither the remaining output nor {}.stop (expected output [{}])", desc, got.join(","), g.name, want.join(",")),
+                        );
+                    }
+                    if got != want {
+                        return violation("gen/output", format!("{}: a lifecycle produced [{}] but the expression yields [{}]", desc, got.join(","), want.join(",")));
+                    }
+                }
+                lifecycles += 1;
+            }
+            if g.gen != GScript::Echo {
+                // after a stop the generator is started again (the respawn timer is 1 s)
+                let first_stop_pos = log.iter().position(|f| f.topic == format!("{}.stop", g.name) && Self::meta_str(f, "source_id").as_deref() == Some(&sid));
+                if let Some(sp) = first_stop_pos {
+                    let ticks_after = self.ticks_1s.iter().filter(|p| **p > sp).count();
+                    if ticks_after >= 1 && lifecycles < 2 {
+                        return violation("gen/not-restarted", format!("{}: stopped, a second of simulated time passed, but it was not started again", desc));
+                    }
+                    if lifecycles >= 2 {
+                        self.w.probe("gen:restarted-after-stop");
+                    }
+                }
+            } else {
+                // duplex: every send appended while it was running is echoed exactly once, in order
+                let start_pos = log.iter().position(|f| f.topic == format!("{}.start", g.name) && Self::meta_str(f, "source_id").as_deref() == Some(&sid));
+                let mut expect: Vec<String> = Vec::new();
+                if let Some(sp) = start_pos {
+                    for (id, n, c, text) in &self.sends {
+                        if *n == g.name && *c == g.ctx {
+                            if let Some(p) = log.iter().position(|f| f.id == *id) {
+                                if p > sp {
+                                    expect.push(format!("hi: {}", text));
+                                }
+                            }
+                        }
+                    }
+                }
+                // sends of the same name in another context: the duplex reader is not context-scoped;
+                // whether they are fed is not judged here
+                let foreign: Vec<String> = self.sends.iter().filter(|(_, n, c, _)| *n == g.name && *c != g.ctx).map(|(_, _, _, t)| format!("hi: {}", t)).collect();
+                let echoed: Vec<String> = echoed.into_iter().filter(|e| !foreign.contains(e)).collect();
+                if echoed != expect {
+                    return violation("gen/duplex", format!("{}: sends while running were [{}] but it produced [{}]", desc, expect.join(","), echoed.join(",")));
+                }
+                if !expect.is_empty() {
+                    self.w.probe("gen:duplex-checked");
+                }
+            }
+            self.w.probe("gen:lifecycle-checked");
+        }
+        Ok(())
+    }
+
+    fn check_commands(&mut self) -> R<()> {
+        let log = self.log.clone();
+        // invalid definitions are reported
+        for d in self.defs.clone() {
+            if d.cmd.invalid {
+                let reported = log.iter().filter(|f| f.topic == format!("{}.error", d.name) && Self::meta_str(f, "command_id").as_deref() == Some(&d.id.to_string())).count();
+                if reported != 1 {
+                    return violation("cmd/invalid-define-not-reported", format!("invalid definition {} of {} produced {} {}.error frames", d.id, d.name, reported, d.name));
+                }
+                self.w.probe("cmd:invalid-reported");
+            }
+        }
+        for call in self.calls.clone() {
+            let cid = call.id.to_string();
+            let desc = format!("call {} of {} in context {}", call.id, call.name, short_ctx(&call.ctx));
+            let mine: Vec<&Frame> = log.iter().filter(|f| Self::meta_str(f, "frame_id").as_deref() == Some(&cid) && Self::meta_str(f, "command_id").is_some()).collect();
+            if call.foreign_def {
+                continue;
+            }
+            let Some(def_id) = call.def else {
+                if !mine.is_empty() {
+                    return violation("cmd/undefined-executed", format!("{}: no valid definition exists but it produced {}", desc, fmt_frame(mine[0])));
+                }
+                continue;
+            };
+            let def = self.defs.iter().find(|d| d.id == def_id).unwrap().clone();
+            for f in &mine {
+                if f.context_id != call.ctx {
+                    return violation("cmd/context", format!("{} produced {} outside the caller's context", desc, fmt_frame(f)));
+                }
+                if Self::meta_str(f, "command_id").as_deref() != Some(&def_id.to_string()) {
+                    return violation("cmd/wrong-definition", format!("{}: {} is stamped with command_id {:?} but the latest valid definition is {}", desc, fmt_frame(f), Self::meta_str(f, "command_id"), def_id));
+                }
+            }
+            let suffix = def.cmd.suffix.clone().unwrap_or_else(|| ".recv".to_string());
+            let recvs: Vec<&&Frame> = mine.iter().filter(|f| f.topic == format!("{}{}", call.name, suffix)).collect();
+            let completes = mine.iter().filter(|f| f.topic == format!("{}.complete", call.name)).count();
+            let errors = mine.iter().filter(|f| f.topic == format!("{}.error", call.name)).count();
+            let sides = mine.iter().filter(|f| f.topic == format!("{}.side", call.name)).count();
+            if completes + errors != 1 {
+                return violation(
+                    "cmd/terminal-count",
+                    format!("{}: {} complete and {} error frames (topics seen: [{}]); exactly one terminal event is required", desc, completes, errors, mine.iter().map(|f| f.topic.clone()).collect::<Vec<_>>().join(",")),
+                );
+            }
+            let last = mine.last().unwrap();
+            if !(last.topic.ends_with(".complete") || last.topic.ends_with(".error")) {
+                return violation("cmd/terminal-not-last", format!("{}: {} came after the terminal event", desc, fmt_frame(last)));
+            }
+            if def.cmd.explicit_append && sides != 1 && errors == 0 {
+                return violation("cmd/explicit-append", format!("{}: the script's .append ran {} times", desc, sides));
+            }
+            let mut want: Vec<serde_json::Value> = def.cmd.outputs.iter().enumerate().map(|(i, r)| ret_literal(r, i).1).collect();
+            if def.cmd.outputs.len() == 1 && def.cmd.outputs[0] == Ret::List && def.cmd.fail_at.is_none() {
+                // a closure whose value is a list yields its elements
+                want = want[0].as_array().cloned().unwrap_or_default();
+            }
+            let got: Vec<serde_json::Value> = recvs
+                .iter()
+                .map(|f| self.content(f).and_then(|b| serde_json::from_slice(&b).ok()).unwrap_or(serde_json::json!("<unreadable>")))
+                .collect();
+            let ttl = def.cmd.ttl.as_ref().and_then(|x| xs::store::parse_ttl(x).ok());
+            for f in &recvs {
+                if f.ttl != ttl {
+                    return violation("cmd/ttl", format!("{}: {} has ttl {:?}, the definition asks for {:?}", desc, fmt_frame(f), f.ttl, ttl));
+                }
+            }
+            match def.cmd.fail_at {
+                None => {
+                    if errors != 0 {
+                        return violation("cmd/unexpected-error", format!("{}: a correct script ended with {}.error", desc, call.name));
+                    }
+                    if got != want {
+                        return violation("cmd/output", format!("{}: results {:?} but the closure yields {:?}", desc, got, want));
+                    }
+                }
+                Some(p) => {
+                    // the closure fails at position p: the values before it may have been delivered,
+                    // then exactly one error; a completed call is wrong
+                    if completes == 1 {
+                        return violation(
+                            "cmd/error-swallowed",
+                            format!("{}: the closure raises an error at output position {} but the call ended with {}.complete (results {:?})", desc, p, call.name, got),
+                        );
+                    }
+                    if got.len() > p || got[..] != want[..got.len()] {
+                        return violation("cmd/output", format!("{}: results {:?} before the error, the closure yields {:?} and fails at {}", desc, got, want, p));
+                    }
+                    self.w.probe("cmd:error-checked");
+                }
+            }
+            self.w.probe("cmd:call-checked");
+        }
+        // calls are never executed twice
+        let mut terminals: HashMap<String, usize> = HashMap::new();
+        for f in &log {
+            if (f.topic.ends_with(".complete") || f.topic.ends_with(".error")) && Self::meta_str(f, "command_id").is_some() {
+                if let Some(t) = Self::meta_str(f, "frame_id") {
+                    *terminals.entry(t).or_insert(0) += 1;
+                }
+            }
+        }
+        if let Some((t, n)) = terminals.iter().find(|(_, n)| **n > 1) {
+            return violation("cmd/executed-twice", format!("call {} has {} terminal events", t, n));
+        }
+        Ok(())
+    }
+
     fn run(&mut self, chooser: &mut Chooser) -> R<()> {
         self.quiesce(chooser, vec![])?;
         let ops = self.plan.ops.clone();
@@ -833,6 +1262,8 @@ impl Run {
         }
         self.quiesce(chooser, vec![])?;
         self.check_handlers()?;
+        self.check_generators()?;
+        self.check_commands()?;
         Ok(())
     }
 }
@@ -915,7 +1346,69 @@ pub fn generate(seed: u64, prop: &str, thorough: bool) -> Plan {
     }
     let n = rng.range(4, if thorough { 22 } else { 16 });
     let mut watched_used = false;
-    for _ in 0..n {
+    if prop == "C18" || prop == "C19" || prop == "C17" {
+        for _ in 0..n {
+            let k = match prop {
+                "C18" => rng.weighted(&[40, 25, 0, 0, 0, 22, 5, 4, 4]),
+                "C19" => rng.weighted(&[0, 0, 28, 40, 10, 2, 6, 7, 7]),
+                _ => rng.weighted(&[14, 6, 12, 16, 4, 8, 14, 14, 12]),
+            };
+            let op = match k {
+                0 => SOp::SpawnGen {
+                    name: rng.below(2),
+                    ctx: rng.below(nctx + 1),
+                    gen: match rng.weighted(&[20, 15, 25, 10, 20, 10]) {
+                        0 => GScript::Single(rng.pick(&["hello", "x", ""]).to_string()),
+                        1 => GScript::ListValue(rng.range(1, 3)),
+                        2 => GScript::Stream(rng.range(1, 4)),
+                        3 => GScript::Empty,
+                        4 => GScript::Echo,
+                        _ => GScript::MissingHash,
+                    },
+                    duplex: false,
+                },
+                1 => SOp::Send { name: rng.below(2), ctx: rng.below(nctx + 1), content: rng.below(100) },
+                2 => SOp::Define {
+                    name: rng.below(2),
+                    ctx: rng.below(nctx + 1),
+                    cmd: {
+                        let no = rng.weighted(&[10, 35, 30, 25]);
+                        let outputs: Vec<Ret> = (0..no)
+                            .map(|_| match rng.below(6) {
+                                0 => Ret::Str,
+                                1 => Ret::Int,
+                                2 => Ret::Record,
+                                3 => Ret::List,
+                                4 => Ret::Bool,
+                                _ => Ret::Float,
+                            })
+                            .collect();
+                        CScript {
+                            fail_at: if no > 0 && rng.chance(20) { Some(rng.below(no)) } else { None },
+                            outputs,
+                            explicit_append: rng.chance(30),
+                            suffix: if rng.chance(25) { Some(".res".to_string()) } else { None },
+                            ttl: if rng.chance(25) { Some(rng.pick(&["head:2", "time:60000"]).to_string()) } else { None },
+                            invalid: rng.chance(12),
+                            uses_env: true,
+                        }
+                    },
+                },
+                3 => SOp::Call { name: rng.below(2), ctx: rng.below(nctx + 1), arg: rng.below(10) },
+                4 => SOp::CallBurst { name: rng.below(2), ctx: rng.below(nctx + 1), n: rng.range(2, 4) },
+                5 => SOp::Tick { ms: 1000 },
+                6 => SOp::Trigger { ctx: rng.below(nctx + 1), fail: rng.chance(15), eph: false },
+                7 => SOp::RegHandler { name: rng.below(2), ctx: rng.below(nctx + 1), script: gen_hscript(&mut rng, "C17"), watched: false },
+                _ => SOp::Foreign { ctx: rng.below(nctx + 1) },
+            };
+            let op = match op {
+                SOp::SpawnGen { name, ctx, gen: GScript::Echo, .. } => SOp::SpawnGen { name, ctx, gen: GScript::Echo, duplex: true },
+                o => o,
+            };
+            ops.push(op);
+        }
+    }
+    for _ in 0..(if prop == "C18" || prop == "C19" || prop == "C17" { 0 } else { n }) {
         let k = match prop {
             "C16" => rng.weighted(&[30, 14, 26, 8, 8, 4, 10]),
             "C15" => rng.weighted(&[22, 4, 50, 6, 6, 2, 10]),
